@@ -55,19 +55,21 @@ type c14Scenario struct {
 	LateEdges [][2]int `json:"late_edges"`
 	Origin    int      `json:"origin"`
 	Budget    []int    `json:"budget"` // announcements allowed per agent
+	Pre       []int    `json:"pre,omitempty"` // announcements each agent made while it still had no peer (uptime before the history: real AnnounceLocalRoutes calls, they only advance its sequence counter)
 	History   []string `json:"history,omitempty"`
 }
 
 func (sc c14Scenario) String() string {
-	return fmt.Sprintf("n=%d edges=%v late=%v origin=n%d budget=%v", sc.N, sc.Edges, sc.LateEdges, sc.Origin, sc.Budget)
+	return fmt.Sprintf("n=%d edges=%v late=%v origin=n%d budget=%v pre=%v", sc.N, sc.Edges, sc.LateEdges, sc.Origin, sc.Budget, sc.Pre)
 }
 
 const c14Age = 6 * time.Minute // > routing.route_ttl (5 min)
 
 // c14Gen is one genuine announcement of the origin.
 type c14Gen struct {
-	Seq uint64
-	S   []int // agents connected to O when it was issued (O excluded)
+	Seq  uint64
+	S    []int // agents connected to O when it was issued (O excluded)
+	Mark int   // length of the sent log when it was issued: only frames written afterwards carry IT
 }
 
 type c14Mesh struct {
@@ -95,6 +97,11 @@ func c14Build(sc c14Scenario, hist []string) (*c14Mesh, error) {
 		net.close()
 		return nil, fmt.Errorf("route TTL %v not below the ageing step %v", m.ttl, c14Age)
 	}
+	for i, k := range sc.Pre {
+		for j := 0; j < k; j++ {
+			net.agents[i].flooder.AnnounceLocalRoutes()
+		}
+	}
 	for _, e := range sc.Edges {
 		net.connect(e[0], e[1])
 	}
@@ -118,9 +125,10 @@ func (m *c14Mesh) apply(ev string) error {
 				a.routeMgr.VerifAge(c14Age)
 			}
 		}
+		mark := len(m.net.sent)
 		m.net.agents[i].flooder.AnnounceLocalRoutes()
 		if i == m.sc.Origin {
-			g := c14Gen{Seq: m.net.agents[i].routeMgr.GetCurrentSequence()}
+			g := c14Gen{Seq: m.net.agents[i].routeMgr.GetCurrentSequence(), Mark: mark}
 			d := m.net.dist()
 			for x := 0; x < m.net.n; x++ {
 				if x != i && d[i][x] > 0 {
@@ -166,13 +174,14 @@ func (m *c14Mesh) enabled(hist []string) []string {
 	return evs
 }
 
-// sentTo returns, per genuine announcement, the sorted list of agents that were sent (O, seq).
+// sentTo returns, per genuine announcement, the sorted list of agents that were sent (O, seq)
+// after it was issued (a replay stamped with the same pair earlier does not count).
 func (m *c14Mesh) sentTo() [][]int {
 	out := make([][]int, len(m.gens))
 	oid := m.net.ids[m.sc.Origin]
 	for gi, g := range m.gens {
 		got := map[int]bool{}
-		for _, f := range m.net.sent {
+		for _, f := range m.net.sent[g.Mark:] {
 			adv := nsAdvInfo(f.Bytes)
 			if adv != nil && adv.OriginAgent == oid && adv.Sequence == g.Seq {
 				got[f.To] = true
@@ -248,6 +257,16 @@ func c14Expected(sc c14Scenario) ([]string, error) {
 	return out, nil
 }
 
+// c14OriginCounter returns the origin's sequence counter right after construction.
+func c14OriginCounter() (int, error) {
+	m, err := c14Build(c14Scenario{N: 1, Origin: 0}, nil)
+	if err != nil {
+		return 0, err
+	}
+	defer m.net.close()
+	return int(m.net.agents[0].routeMgr.GetCurrentSequence()), nil
+}
+
 // c14Oracle evaluates both clauses; destructive (runs the real cleanup), call it last.
 func c14Oracle(r *vmc.Result, m *c14Mesh, hist []string, expected []string) {
 	if len(m.gens) == 0 || !m.net.quiescent() {
@@ -294,27 +313,40 @@ func c14Oracle(r *vmc.Result, m *c14Mesh, hist []string, expected []string) {
 		a.routeMgr.CleanupStaleForwardRoutes(m.ttl)
 		a.routeMgr.CleanupStaleAgentRoutes(m.ttl)
 		after := m.originRoutes(x)
+		// why a route was not renewed is decided per agent from the origin's routes that were
+		// NOT written since the announcement: the highest sequence they carry, against the
+		// announcement's
+		var staleMax uint64
+		stale := false
+		for _, b := range before {
+			if b.Age > m.ttl {
+				stale = true
+				if b.Seq > staleMax {
+					staleMax = b.Seq
+				}
+			}
+		}
+		why := "no-route-of-origin-stored"
+		switch {
+		case stale && staleMax > last.Seq:
+			why = "stored-sequence-higher-than-origin"
+		case stale && staleMax == last.Seq:
+			why = "stored-sequence-equal-to-origin"
+		case stale:
+			why = "stored-sequence-lower"
+		}
 		ok := true
 		for _, k := range expected {
 			if _, present := after[k]; present {
 				continue
 			}
 			ok = false
-			why := "route-missing"
 			if b, had := before[k]; had {
-				switch {
-				case b.Seq > last.Seq:
-					why = "stored-sequence-higher-than-origin"
-				case b.Seq == last.Seq:
-					why = "stored-sequence-equal-to-origin"
-				default:
-					why = "stored-sequence-lower"
-				}
 				r.Violate("C14/route-not-renewed/"+why,
-					fmt.Sprintf("%s: after announcement (origin n%d, seq %d) was delivered everywhere, n%d's %s route (stored seq %d, next hop %s, written before the announcement) was not renewed and the real CleanupStale* removed it (history %v)", sc, sc.Origin, last.Seq, x, k, b.Seq, nt.name(b.NextHop), hist), rep())
+					fmt.Sprintf("%s: after announcement (origin n%d, seq %d) was delivered everywhere, n%d's %s route (stored seq %d, next hop %s, written before the announcement; highest stale stored seq of the origin %d) was not renewed and the real CleanupStale* removed it (history %v)", sc, sc.Origin, last.Seq, x, k, b.Seq, nt.name(b.NextHop), staleMax, hist), rep())
 			} else {
 				r.Violate("C14/route-not-renewed/"+why,
-					fmt.Sprintf("%s: after announcement (origin n%d, seq %d) was delivered everywhere, n%d holds no %s route of the origin (history %v)", sc, sc.Origin, last.Seq, x, k, hist), rep())
+					fmt.Sprintf("%s: after announcement (origin n%d, seq %d) was delivered everywhere, n%d holds no %s route of the origin (highest stale stored seq of the origin %d) (history %v)", sc, sc.Origin, last.Seq, x, k, staleMax, hist), rep())
 			}
 		}
 		if ok {
@@ -328,7 +360,7 @@ func c14Oracle(r *vmc.Result, m *c14Mesh, hist []string, expected []string) {
 			r.Nontrivial(fmt.Sprintf("renewed|%s|n%d|gens=%d|%s", sc.String(), x, len(m.gens), viaReplay))
 			r.Outcome("renewed|" + viaReplay)
 		} else {
-			r.Outcome("not-renewed")
+			r.Outcome("not-renewed|" + why)
 		}
 	}
 }
@@ -378,22 +410,34 @@ func TestVerif_C14(t *testing.T) {
 		}
 		return
 	}
+	// The origin's counter starts at the number of its configured routes (AddLocal*Route
+	// increments it) and its full table on the first connect takes one more; a relay that has
+	// been up longer (Pre announcements while alone) is ahead of it. o0+1 puts the relay's next
+	// replay stamp exactly on the origin's first announcement, budgets move it above.
+	o0, err := c14OriginCounter()
+	if err != nil {
+		t.Fatal(err)
+	}
+	r.Info["origin_initial_sequence"] = o0
+	pre := func(n, relay, k int) []int { p := make([]int, n); p[relay] = k; return p }
 	var scs []c14Scenario
-	// O - R, N joins R later (the replay), R may announce to get ahead of O
-	scs = append(scs, c14Scenario{N: 3, Edges: [][2]int{{0, 1}}, LateEdges: [][2]int{{1, 2}}, Origin: 0, Budget: []int{2, 2, 0}})
+	// O - R, N joins R later (the replay); R was up before and may announce once more
+	scs = append(scs, c14Scenario{N: 3, Edges: [][2]int{{0, 1}}, LateEdges: [][2]int{{1, 2}}, Origin: 0, Budget: []int{2, 1, 0}, Pre: pre(3, 1, o0+1)})
 	// O - R ... N - M: the replay goes to N, M sits behind N
-	scs = append(scs, c14Scenario{N: 4, Edges: [][2]int{{0, 1}, {2, 3}}, LateEdges: [][2]int{{1, 2}}, Origin: 0, Budget: []int{2, 2, 0, 0}})
+	scs = append(scs, c14Scenario{N: 4, Edges: [][2]int{{0, 1}, {2, 3}}, LateEdges: [][2]int{{1, 2}}, Origin: 0, Budget: []int{2, 0, 0, 0}, Pre: pre(4, 1, o0+1)})
 	// triangle closed late: N already hears O directly when R's replay arrives
-	scs = append(scs, c14Scenario{N: 3, Edges: [][2]int{{0, 1}, {0, 2}}, LateEdges: [][2]int{{1, 2}}, Origin: 0, Budget: []int{2, 1, 0}})
-	// no late link at all: plain re-announcements (control: must never alarm)
-	scs = append(scs, c14Scenario{N: 3, Edges: [][2]int{{0, 1}, {1, 2}}, Origin: 0, Budget: []int{2, 1, 0}})
+	scs = append(scs, c14Scenario{N: 3, Edges: [][2]int{{0, 1}, {0, 2}}, LateEdges: [][2]int{{1, 2}}, Origin: 0, Budget: []int{1, 0, 0}, Pre: pre(3, 1, o0+2)})
+	// controls (must never alarm): relay behind the origin; no late link at all
+	scs = append(scs, c14Scenario{N: 3, Edges: [][2]int{{0, 1}}, LateEdges: [][2]int{{1, 2}}, Origin: 0, Budget: []int{2, 1, 0}})
+	scs = append(scs, c14Scenario{N: 3, Edges: [][2]int{{0, 1}, {1, 2}}, Origin: 0, Budget: []int{2, 1, 0}, Pre: pre(3, 1, o0+1)})
 	if r.Thorough() {
 		scs = append(scs,
+			c14Scenario{N: 3, Edges: [][2]int{{0, 1}}, LateEdges: [][2]int{{1, 2}}, Origin: 0, Budget: []int{3, 2, 0}, Pre: pre(3, 1, o0+1)},
 			c14Scenario{N: 3, Edges: [][2]int{{0, 1}}, LateEdges: [][2]int{{1, 2}}, Origin: 0, Budget: []int{3, 3, 0}},
-			c14Scenario{N: 3, Edges: [][2]int{{0, 1}, {0, 2}}, LateEdges: [][2]int{{1, 2}}, Origin: 0, Budget: []int{3, 2, 1}},
-			c14Scenario{N: 4, Edges: [][2]int{{0, 1}, {2, 3}}, LateEdges: [][2]int{{1, 2}}, Origin: 0, Budget: []int{3, 2, 0, 0}},
-			c14Scenario{N: 4, Edges: [][2]int{{0, 1}, {1, 2}}, LateEdges: [][2]int{{2, 3}, {1, 3}}, Origin: 0, Budget: []int{2, 1, 1, 0}},
-			c14Scenario{N: 3, Edges: [][2]int{{0, 1}, {1, 2}, {0, 2}}, Origin: 0, Budget: []int{3, 1, 1}},
+			c14Scenario{N: 4, Edges: [][2]int{{0, 1}, {2, 3}}, LateEdges: [][2]int{{1, 2}}, Origin: 0, Budget: []int{2, 2, 0, 0}, Pre: pre(4, 1, o0+1)},
+			c14Scenario{N: 3, Edges: [][2]int{{0, 1}, {0, 2}}, LateEdges: [][2]int{{1, 2}}, Origin: 0, Budget: []int{2, 1, 0}, Pre: pre(3, 1, o0+1)},
+			c14Scenario{N: 4, Edges: [][2]int{{0, 1}, {1, 2}}, LateEdges: [][2]int{{2, 3}, {1, 3}}, Origin: 0, Budget: []int{2, 0, 1, 0}, Pre: pre(4, 2, o0+1)},
+			c14Scenario{N: 3, Edges: [][2]int{{0, 1}, {1, 2}, {0, 2}}, Origin: 0, Budget: []int{3, 1, 1}, Pre: pre(3, 1, o0+1)},
 		)
 	}
 	for _, sc := range scs {
